@@ -34,13 +34,15 @@ DEVS = [("Ind_dev_sliceany.cfg", "fragment nodes sliced in set-iteration order (
         ("Ind_dev_firstmatch.cfg", "a link applied to the first match found only"),
         ("Ind_dev_orient.cfg", "stored edge orientation decides the link direction"),
         ("Ind_dev_oncegroup.cfg", "a link applied once per set of residues: one orientation of a `*` link lost (seed-C13-2)"),
+        ("Ind_dev_namecache.cfg", "residue-name combinations without link atoms remembered per link: same-named residues differing by a residue-level attribute (seed3-C13-1)"),
         ("Ind_dev_dfstree.cfg", "fragments = components over depth-first tree edges (F31, repaired)"),
         ("Ind_dev_fragid.cfg", "correspondences stored in merge order, looked up by fragment id (F32, repaired)"),
         ("Ind_dev_itpglobal.cfg", "finishing an .itp re-tags the versions of all links read so far (F33, repaired)")]
 HDEVS = [("Ind_hist_dev_cacheff.cfg", "loaded force fields cached between calls: retagged exclusion distances / citation sets leak"),
          ("Ind_hist_dev_append.cfg", "output appended to an existing file"),
          ("Ind_hist_dev_flushlate.cfg", "deferred writer queue flushed by the next call"),
-         ("Ind_hist_dev_inpathleak.cfg", "library files appended to the (mutable default) inpath list of gen_params (seed-C13-1)")]
+         ("Ind_hist_dev_inpathleak.cfg", "library files appended to the (mutable default) inpath list of gen_params (seed-C13-1)"),
+         ("Ind_hist_dev_readercache.cfg", "file content cached by path: a file rewritten between calls is read with its old content (seed3-C13-2)")]
 
 
 def _fix_ffs(ffs):
@@ -170,7 +172,7 @@ def _run_history(arg):
     return {"machinery": "history process gave no result (rc=%s): %s" % (p.returncode, (p.stdout + p.stderr)[-800:])}
 
 
-def prepare_abstract_input(wd, k, case, F, lib=()):
+def prepare_abstract_input(wd, k, case, F, lib=None):
     """render input k (catalogue case) once: residue graph json + the force-field files in base presentation.  Inputs that use the
     same force field use the SAME files (one directory per force field), as two calls on one library would"""
     fd = Path(wd) / ("ff%d" % case["ff"])
@@ -185,7 +187,16 @@ def prepare_abstract_input(wd, k, case, F, lib=()):
     jp = d / "seq.json"
     jp.write_text(iu.graph_json(case, var))
     r = {"inpath": [str(p) for p in paths], "seq_file": str(jp), "name": "t", "label": "catalogue case %d (%s)" % (case["id"], " ".join(case["rn"]))}
-    if lib:
+    mode = lib["mode"] if lib else "all"
+    lib = lib["files"] if lib else ()
+    if mode == "path":
+        # the input's definitions are written to ONE path shared with the other inputs of this kind (a file rewritten between calls); the path
+        # lives in the directory of the history (history_specs), the content is (re)written by the child process right before the call
+        fs = [base[i - 1] for i in lib]
+        r = {"inpath": [], "shared": {"name": "shared_ff%d.%s" % (case["ff"], fs[0]["syn"]), "text": "\n".join(iu.render_file(F, f) for f in fs)},
+             "seq_file": str(jp), "name": "t",
+             "label": "catalogue case %d (%s), definitions = files %s of force field %d written to the shared path" % (case["id"], " ".join(case["rn"]), list(lib), case["ff"])}
+    elif mode == "lib":
         # the input names a LIBRARY and passes no inpath: a directory holding exactly the library's files, addressed by its absolute path
         # (load_library joins the name onto its data path; an absolute name stands for itself)
         ld = Path(wd) / ("lib_ff%d_%s" % (case["ff"], "_".join(str(i) for i in lib)))
@@ -207,6 +218,10 @@ def history_specs(wd, inputs, hists, tag):
         runs = []
         for i in h:
             r = dict(inputs[i - 1])
+            if r.get("shared"):
+                sp = d / r["shared"]["name"]
+                r["inpath"] = [str(sp)]
+                r["write"] = [[str(sp), r["shared"]["text"]]]
             r["out"] = str(d / ("out_%d.itp" % i))
             r["argv"] = ["-o", r["out"], "-run", str(len(runs) + 1)]
             runs.append(r)
@@ -222,17 +237,20 @@ def result_digest(r):
     return hashlib.sha1(r["body"].encode()).hexdigest()[:16]
 
 
-def replay_histories(ck, hres, ffs, tier, wdname="hist"):
+def replay_histories(ck, hres, ffs, tier, wdname="hist", maxlen=3):
     hin = hres.tagged("HINPUTS")
     if not hin:
         raise c.MachineryError("history model exported no inputs")
     hin = hin[0]
     hists = sorted((x for x in hres.tagged("HIST")), key=lambda x: (len(x["h"]), x["h"]))
     need = sum(len(hin) ** k for k in (1, 2, 3))
+    if len(hists) == need and maxlen < 3:      # TLC explored all of them; the quick tier runs the shorter ones of this family through the code
+        hists = [x for x in hists if len(x["h"]) <= maxlen]
+        need = len(hists)
     if len(hists) != need:
         raise c.MachineryError("history model exported %d histories, expected %d" % (len(hists), need))
     wd = c.workdir(PROP, wdname)
-    inputs = [prepare_abstract_input(wd, k + 1, x["case"], ffs[x["case"]["ff"] - 1], lib=x.get("lib") or ()) for k, x in enumerate(hin)]
+    inputs = [prepare_abstract_input(wd, k + 1, x["case"], ffs[x["case"]["ff"] - 1], lib=x.get("lib")) for k, x in enumerate(hin)]
     for k, x in enumerate(hin):
         if x["expected"]["err"]:
             inputs[k]["declared_failure"] = x["expected"]["err"]      # the input whose declared result is a failure (thorough tier)
@@ -337,9 +355,15 @@ def random_ff_case(rng, idx):
             nm = rng.choice(names)
             links.append({"orders": [0, 101], "atoms": [{"oi": 1, "an": "c1", "rn": [nm]}, {"oi": 2, "an": "c2", "rn": [nm]}],
                           "inters": [{"kind": "bonds", "at": [1, 2], "par": "0.27", "ver": 1}], "rep": [], "del": []})
+        if rng.random() < 0.4:    # a bond only where the first residue carries the residue-level attribute mark = "x" (some residues of that name do)
+            nm = rng.choice(names)
+            marked_name = nm
+            links.append({"orders": [0, 1], "atoms": [{"oi": 1, "an": "c1", "rn": [nm], "mk": "x"}, {"oi": 2, "an": "c2", "rn": list(names)}],
+                          "inters": [{"kind": "bonds", "at": [1, 2], "par": "0.26", "ver": 1}], "rep": [], "del": []})
         if rng.random() < 0.4:    # retype
             links.append({"orders": [0], "atoms": [{"oi": 1, "an": "c1", "rn": [rng.choice(names)]}], "inters": [], "rep": [{"a": 1, "ty": "TX"}], "del": []})
     # residue graph
+    marked_name = locals().get("marked_name")
     order = list(range(1, n + 1))
     rng.shuffle(order)
     edges = set()
@@ -381,6 +405,7 @@ def random_ff_case(rng, idx):
             for b in range(a + 1, n + 1):
                 if rng.random() < 0.12:
                     edges.add(frozenset((a, b)))
+    mark = ["x" if (marked_name and rn[k] == marked_name and rng.random() < 0.5) else "" for k in range(n)]
     # files: blocks and links spread over 1-3 files
     defs = [{"t": "b", "i": i + 1} for i in range(len(blocks))] + [{"t": "l", "i": i + 1} for i in range(len(links))] + [{"t": "m", "i": i + 1} for i in range(len(mods))]
     nfiles = rng.randint(1, 3)
@@ -399,7 +424,10 @@ def random_ff_case(rng, idx):
         for d in itpdefs:
             files.insert(rng.randrange(len(files) + 1), {"syn": "itp", "defs": [d]})
     F = {"blocks": blocks, "links": links, "mods": mods, "bib": [], "files": files}
-    case = {"id": idx, "ff": idx, "n": n, "start": start, "rn": rn, "fi": fi, "E": sorted(sorted(e) for e in edges), "mods": []}
+    for l in links:
+        for a in l["atoms"]:
+            a.setdefault("mk", "")
+    case = {"id": idx, "ff": idx, "n": n, "start": start, "rn": rn, "fi": fi, "E": sorted(sorted(e) for e in edges), "mods": [], "mark": mark}
     return F, case
 
 
@@ -619,7 +647,8 @@ def run(tier, prop=PROP):
     jobs = [("main", "IndependenceMC", "Ind_quick.cfg" if tier == "quick" else "Ind_full.cfg", 4 if tier == "quick" else 8, {}),
             ("export", "IndependenceExport", "Ind_export.cfg", 1, {}),
             ("hist", "IndependenceHistMC", "Ind_hist_3.cfg" if tier == "quick" else "Ind_hist_4.cfg", 1, {}),
-            ("histlib", "IndependenceHistMC", "Ind_hist_lib.cfg", 1, {})]
+            ("histlib", "IndependenceHistMC", "Ind_hist_lib.cfg", 1, {}),
+            ("histpath", "IndependenceHistMC", "Ind_hist_path.cfg", 1, {})]
     jobs += [("dev:" + cfg, "IndependenceMC", cfg, 1, {"check": False}) for cfg, _ in DEVS]
     jobs += [("hdev:" + cfg, "IndependenceHistMC", cfg, 1, {"check": False}) for cfg, _ in HDEVS]
     from ..links_util import run_jobs
@@ -627,6 +656,7 @@ def run(tier, prop=PROP):
     ck.model_must_hold(res["main"], "Confluent / BaseAsDeclared / DomainInv / NoSpuriousFailure / FiredOnlyKnown")
     ck.model_must_hold(res["hist"], "HistoryIndependent / RepeatStable")
     ck.model_must_hold(res["histlib"], "HistoryIndependent / RepeatStable (library inputs with the default inpath)")
+    ck.model_must_hold(res["histpath"], "HistoryIndependent / RepeatStable (an input file rewritten between calls under one path)")
     for cfg, what in DEVS:
         ck.model_must_refute(res["dev:" + cfg], "Confluent", what)
     for cfg, what in HDEVS:
@@ -640,7 +670,8 @@ def run(tier, prop=PROP):
 
     ck.stage("S->I: all histories of <= 3 calls, one process each")
     hinputs = replay_histories(ck, res["hist"], ffs, tier)
-    hinputs += replay_histories(ck, res["histlib"], ffs, tier, "histlib")[:2]
+    hinputs += replay_histories(ck, res["histlib"], ffs, tier, "histlib", 2 if tier == "quick" else 3)[:2]
+    hinputs += replay_histories(ck, res["histpath"], ffs, tier, "histpath", 2 if tier == "quick" else 3)[:2]
 
     ck.stage("I->S: random cases, repository force fields, random histories")
     rng = random.Random(sd * 1000003 + 13)
@@ -678,6 +709,7 @@ def run(tier, prop=PROP):
     ck.extra["random_cases_beyond_former_findings"] = {
         "from_itp_in_cyclic_graph": sum(1 for F, cs in gen if any(cs["fi"]) and len(cs["E"]) >= cs["n"]),
         "two_separate_fragments": sum(1 for F, cs in gen if _nfrag(cs) >= 2),
+        "links_selecting_on_a_residue_attribute": sum(1 for F, cs in gen if any(cs["mark"])),
         "star_order_links": sum(1 for F, cs in gen if any(o >= 100 for l in F["links"] for o in l["orders"])),
         "link_versions_next_to_itp_files": sum(1 for F, cs in gen if any(f["syn"] == "itp" for f in F["files"]) and any(x["ver"] != 1 for l in F["links"] for x in l["inters"]))}
     ck.extra["random_cases"] = {"cases": len(recs), "variants": sum(len(r["vars"]) for r in recs), "variants_with_reordered_definitions": nreordered,
@@ -806,7 +838,9 @@ def replay(path):
         seq = case["inputs"] if "inputs" in case else case["history"]
         inputs, h = [], []
         for x in seq:
-            x = {k: v for k, v in x.items() if k not in ("out", "argv")}
+            x = {k: v for k, v in x.items() if k not in ("out", "argv", "write")}
+            if x.get("shared"):
+                x["inpath"] = []
             if x not in inputs:
                 inputs.append(x)
             h.append(inputs.index(x) + 1)
